@@ -21,6 +21,15 @@ FINDINGS = os.path.join(VERIF, "known_findings.json")
 GUARD = "BRZ_VERIF_TRACE"
 
 
+def max_workers(default=16):
+    """Parallelism cap.  Development-time throttle: an integer in /verif/.work/workers (git-ignored, absent in a fresh
+    restore) or $VF_WORKERS lowers it while several checks are being developed side by side."""
+    try:
+        return max(1, int(os.environ.get("VF_WORKERS") or open(os.path.join(VERIF, ".work", "workers")).read().strip()))
+    except Exception:
+        return default
+
+
 class MachineryError(Exception):
     """The check itself could not run (TLC error, vacuity guard, build failure)."""
 
@@ -249,7 +258,7 @@ def fork_map(ctx, fn, items, nproc=None, chunks_per_proc=4):
     items = list(items)
     if not items:
         return
-    nproc = nproc or min(16, os.cpu_count() or 4)
+    nproc = min(nproc or 16, os.cpu_count() or 4, max_workers())
     nchunks = max(1, min(len(items), nproc * chunks_per_proc))
     chunks = [items[i::nchunks] for i in range(nchunks)]
     args = [(ctx.pid, ctx.tier, ctx.seed, ctx.meta, ctx.workdir, fn, ch, i) for i, ch in enumerate(chunks)]
